@@ -35,6 +35,8 @@ def components():
         out.append(("modulator", nm))
         out.append(("demod-hard", nm))
         out.append(("demod-soft", nm))
+    for nm in ("pam16-long", "pam64raw-long", "qam16-long", "psk8-long"):
+        out.append(("demod-hard", nm))
     for nm in ("total", "average", "papr", "per-antenna"):
         out.append(("constraint", nm))
     for nm in ("total", "average", "papr"):
@@ -185,10 +187,24 @@ def build(kind, nm):
         return f, pool, n, not soft or head in ("wagner", "sc", "softrm")
     if kind in ("modulator", "demod-hard", "demod-soft"):
         import kaira.modulations as M
+        long_members = nm.endswith("-long")
+        nm = nm[:-5] if long_members else nm
         mk = {"bpsk": (lambda: M.BPSKModulator(), lambda: M.BPSKDemodulator(), 1), "qpsk": (lambda: M.QPSKModulator(), lambda: M.QPSKDemodulator(), 2),
               "psk8": (lambda: M.PSKModulator(8), lambda: M.PSKDemodulator(8), 3), "qam16": (lambda: M.QAMModulator(16), lambda: M.QAMDemodulator(16), 4),
-              "pam4": (lambda: M.PAMModulator(4), lambda: M.PAMDemodulator(4), 2), "qam64": (lambda: M.QAMModulator(64), lambda: M.QAMDemodulator(64), 6)}[nm]
+              "pam4": (lambda: M.PAMModulator(4), lambda: M.PAMDemodulator(4), 2), "pam16": (lambda: M.PAMModulator(16), lambda: M.PAMDemodulator(16), 4),
+              "pam64raw": (lambda: M.PAMModulator(64, normalize=False), lambda: M.PAMDemodulator(64, normalize=False), 6), "qam64": (lambda: M.QAMModulator(64), lambda: M.QAMDemodulator(64), 6)}[nm]
         mod, dem, b = mk[0](), mk[1](), mk[2]
+        if kind == "demod-hard" and long_members:
+            # members of 1400 symbols (so that a few members together cross internal size thresholds such as 65536 / order) made of constellation
+            # points, EXACT midpoints between neighbouring levels (ties) and slightly displaced points, in a fixed pseudo-random order
+            pts_ = [complex(c) for c in mod.constellation.tolist()]
+            srt = sorted(pts_, key=lambda c: (c.real, c.imag))
+            mids = [(srt[i] + srt[i + 1]) / 2 for i in range(len(srt) - 1)]
+            cand = pts_ + mids + [c * 1.07 + 0.013 for c in pts_] + [0j]
+            g_ = torch.Generator().manual_seed(4711)
+            pool = [torch.tensor([cand[int(j)] for j in torch.randint(0, len(cand), (1400,), generator=g_).tolist()], dtype=torch.complex64) for _ in range(4)]
+            fh = lambda y: dem(y)  # noqa: E731
+            return fh, pool, 1400, False
         if kind == "modulator":
             L = 2 * b
             pats = [[0] * L, [1] * L, [i % 2 for i in range(L)], [1] + [0] * (L - 1), [(i // 2) % 2 for i in range(L)]]
